@@ -508,6 +508,7 @@ def buildIdGenerateFromText (b : Blob) (shs : Except String (Array Shdr)) : Exce
   let shs ← shs
   let some text := shs.toList.find? isExecutableSection | throw "NoTextSection"
   let len := min 4096 text.size
+  if len == 0 then throw "NoTextSection"
   let w ← memRead b text.offset len
   return buildIdFromBytes b w
 
